@@ -167,7 +167,7 @@ def jobs(chk):
     js = [part_hermtoep(chk, False, 3, [2, 3], 'PartsQ' if not quick else 'PartsC', 'ZQ'),
           part_hermtoep(chk, True, 2, [2, 3], 'PartsC', 'ZC'),
           part_toeplitz(chk, False, 2 if quick else 3, [2, 3], 'PartsS', 'ZQ' if quick else 'ZC'),
-          part_toeplitz(chk, True, 1 if quick else 2, [2], 'PartsS', 'ZC'),
+          part_toeplitz(chk, True, 1 if quick else 2, [2], 'PartsS' if quick else 'Parts01', 'ZC'),
           part_cholesky(chk, False, 3 if not quick else 2, [1, 2], 'PartsS' if not quick else 'PartsQ'),
           part_cholesky(chk, True, 2, [1, 2], 'PartsS')]
     if not quick:
